@@ -230,3 +230,11 @@ def rules(t, *a, **kw):
     out = _rules_C15_w7(t, *a, **kw)
     out.append(W7.ack_collection_total(t, "C15.n"))
     return out
+
+_rules_C15_w7b = rules
+def rules(t, *a, **kw):
+    import rules.wave7 as W7
+    out = _rules_C15_w7b(t, *a, **kw)
+    out.append(W7.resend_scan_reached(t, "C15.o"))
+    out.append(W7.sent_record_removers(t, "C15.p"))
+    return out
